@@ -409,6 +409,7 @@ func TestCheck(t *testing.T) {
 		},
 	})
 
+	reusePart(c, t)
 	c.Extra("verify_wall_s", time.Since(t0).Seconds())
 	per := map[string]map[string]int64{}
 	for i, name := range verifiers {
